@@ -81,7 +81,7 @@ WRAP_KEY = 'F-C09-wrapped-run-count-long-loop'
 def wrapped_count_class(m, why):
     """exactly the open finding: an integer field set to >= 0xFFFFFFFE, the loader neither crashes nor reports a sanitizer error but
     does not stop within the time limit, or asks for an unbounded amount of memory"""
-    return (len(m) > 2 and m[2].startswith('integer field') and any(x in m[2] for x in (': 0xFFFFFFFF', ': 0xFFFFFFFE')) and
+    return (len(m) > 2 and isinstance(m[2], str) and m[2].startswith('integer field') and any(x in m[2] for x in (': 0xFFFFFFFF', ': 0xFFFFFFFE')) and
             (why.startswith('hang') or why.startswith('unbounded allocation')))
 
 
@@ -136,7 +136,7 @@ def damaged_sweeps(chk, tool, asan, model_exe, work, tier, stats):
         sw = L.Sweep(root, spec, NCPU)
         ex = L.mutants_exhaustive(base)
         by = L.mutants_bytes(base)
-        rnd = L.mutants_random(base, rng, 150 if quick else 2000)
+        rnd = L.mutants_random(base, rng, 80 if quick else 2000)
         try:
             bnd = F.boundary_mutants(base, quick)
             nfields = len(F.string_fields(base))
@@ -157,7 +157,7 @@ def damaged_sweeps(chk, tool, asan, model_exe, work, tier, stats):
         big = quick and len(base) > 1000
         ro = list(spec.get('run_opts') or [])
         prim = spec.get('primary_cmd', 'status')
-        exq = sample(ex, 8) if big else ex          # a 4 KB file has 38 000 single-bit/truncation mutants: thorough tier only
+        exq = sample(ex, 24) if big else ex          # a 4 KB file has 38 000 single-bit/truncation mutants: thorough tier only
         try:
             feats = sorted(F.features(base))
         except Exception as e:
@@ -178,32 +178,41 @@ def damaged_sweeps(chk, tool, asan, model_exe, work, tier, stats):
         # structure-aware multi-byte damage: every packed-integer field (indexes, positions, run counts, sizes, times, flags, ...) set to
         # 0, 1, 0x7FFFFFFF, 0xFFFFFFFE, 0xFFFFFFFF, 2^32(+1) in five bytes, 64-bit maxima; spliced and overwritten in place.  Complete
         # in the quick tier on the files that hold a file in several block runs / holes, a quarter of the fields elsewhere.
-        intq = intm if (not quick or 'file_in_several_block_runs' in feats or spec['name'] == 'v3_3d_2p_split') else sample(intm, 4)
+        if not quick:
+            intq = intm
+        elif 'file_in_several_block_runs' in feats or spec['name'] == 'v3_3d_2p_split':
+            # quick: the shapes with a file in several block runs / with holes; 0xFFFFFFFF always (spliced and overwritten), a third of
+            # the other boundary values chosen by the seed
+            labels = sorted({m[2].split('): ')[1].rsplit(', ', 1)[0] for m in intm})
+            keep = {l for i, l in enumerate(labels) if l.startswith('0xFFFFFFFF') or (i + off) % 3 == 0}
+            intq = [m for m in intm if m[2].split('): ')[1].rsplit(', ', 1)[0] in keep]
+        else:
+            intq = []
         plan.append((asan, True, ro + [prim], 'conf', intq, 'asan_intfield_' + prim))
         if not quick:
             plan.append((asan, True, None, 'noconf', intm, 'asan_intfield_noconf'))
             plan.append((asan, True, ro + ['sync'], 'conf', intm, 'asan_intfield_sync'))
         # boundary-aimed: string length prefixes around the buffer capacities (UUID_MAX, PATH_MAX), 2^31, 2^32-1, over-long varints
-        plan.append((asan, True, ro + [prim], 'conf', sample(bnd, 3) if big else bnd, 'asan_strlen_' + prim))
-        plan.append((asan, True, None, 'noconf', sample(bnd, 6 if big else 2) if quick else bnd, 'asan_strlen_noconf'))
+        plan.append((asan, True, ro + [prim], 'conf', sample(bnd, 6) if big else bnd, 'asan_strlen_' + prim))
+        plan.append((asan, True, None, 'noconf', sample(bnd, 12 if big else 4) if quick else bnd, 'asan_strlen_noconf'))
         for xc in spec.get('extra_cmds') or []:
             plan.append((tool, False, ro + xc, 'conf', sample(exq, 8) if quick else ex, '_'.join(xc)))
         others = [c for c in ('status', 'diff', 'check', 'sync', 'list') if c != prim and not (spec.get('load_names') and c in ('status', 'list'))]
         if not quick:
             plan.append((tool, False, ro + ['list'], 'conf', bnd, 'strlen_list'))
         if light:
-            plan.append((asan, True, ro + [prim], 'conf', sample(exq, 6), 'asan_' + prim))
-            plan.append((asan, True, None, 'noconf', sample(exq, 6), 'asan_noconf'))
+            plan.append((asan, True, ro + [prim], 'conf', sample(exq, 10), 'asan_' + prim))
+            plan.append((asan, True, None, 'noconf', sample(exq, 10), 'asan_noconf'))
             for cmd in others:
-                plan.append((tool, False, ro + [cmd], 'conf', sample(exq, 16), cmd))
-            plan.append((tool, False, ro + [prim], 'conf', sample(by, 24 if big else 6), 'bytes_' + prim))
+                plan.append((tool, False, ro + [cmd], 'conf', sample(exq, 32), cmd))
+            plan.append((tool, False, ro + [prim], 'conf', sample(by, 48 if big else 8), 'bytes_' + prim))
             plan.append((tool, False, ro + [prim], 'conf', rnd[:60], 'random_' + prim))
         elif quick:
-            plan.append((asan, True, ['status'], 'conf', ex if si == 0 else sample(ex, 6), 'asan_status'))
-            plan.append((asan, True, None, 'noconf', sample(ex, 6), 'asan_noconf'))
+            plan.append((asan, True, ['status'], 'conf', ex if si == 0 else sample(ex, 10), 'asan_status'))
+            plan.append((asan, True, None, 'noconf', sample(ex, 10), 'asan_noconf'))
             for cmd in ('diff', 'check', 'sync', 'list'):
-                plan.append((tool, False, [cmd], 'conf', sample(ex, 12), cmd))
-            plan.append((tool, False, ['status'], 'conf', sample(by, 3), 'bytes_status'))
+                plan.append((tool, False, [cmd], 'conf', sample(ex, 24), cmd))
+            plan.append((tool, False, ['status'], 'conf', sample(by, 6), 'bytes_status'))
             plan.append((asan, True, None, 'noconf', sample(by, 12), 'asan_bytes_noconf'))
             plan.append((asan, True, ['status'], 'conf', sample(by, 12), 'asan_bytes_status'))
             plan.append((tool, False, ['status'], 'conf', rnd, 'random_status'))
@@ -232,7 +241,7 @@ def damaged_sweeps(chk, tool, asan, model_exe, work, tier, stats):
         distinct += len(ex) + len(by) + len(rnd) + len(bnd) + len(intm)
         # model <-> C on the loader: `snapraid -C` and the extracted CodecModel.decode (no configuration) on the valid file and on
         # every mutant: accept/reject must agree (else MODEL-DRIFT); the reject kind (end of file / other) is compared and counted
-        allm = (sample(exq, 4) if light else sample(exq, 2) if quick else exq) + (sample(by, 24 if big else 3) if quick else by) + rnd + (sample(bnd, 6 if big else 2) if quick else bnd) + ([m for m in sample(intq, 4) if ': 0xFFFFFFF' not in m[2]] if quick else intm)
+        allm = (sample(exq, 8) if light else sample(exq, 4) if quick else exq) + (sample(by, 24 if big else 6) if quick else by) + rnd + (sample(bnd, 6 if big else 2) if quick else bnd) + ([m for m in sample(intq, 4) if ': 0xFFFFFFF' not in m[2]] if quick else intm)
         bad, n, cl, per = sw.run(tool, base, allm, None, mode='noconf', want=True)
         total_runs += n
         shape_runs += n
@@ -378,7 +387,7 @@ def kill_points(chk, tool, shim, model_exe, work, tier, stats):
     # stale / missing / resized NON-first copies on format-3 arrays (a sync with nothing to do does not rewrite the content there)
     v3 = dict(name='v3_split_h8_stale', ndisk=2, npar=1, split=True, hashsize=8, history='plain', rich=True)
     v3b = dict(name='v3_h8_stale', ndisk=2, npar=2, split=False, hashsize=8, history='plain', rich=False)
-    for nc, spec in ((2, v3), (3, v3), (3, v3b)) if quick else ((2, v3), (3, v3), (4, v3), (2, v3b), (3, v3b)):
+    for nc, spec in ((2, v3), (3, v3b)) if quick else ((2, v3), (3, v3), (4, v3), (2, v3b), (3, v3b)):
         root = os.path.join(work, 'stale_%d_%s' % (nc, spec['name']))
         os.makedirs(root)
         sc = K.KillScenario(tool, shim, root, nc, chk.rng, spec=spec)
@@ -497,6 +506,10 @@ def main(tier, replay=None):
                              'in input_distribution); the tie of the models to the C: system-call order + kill points for the save model, accept/reject class of '
                              '`snapraid -C` against the extracted CodecModel.decode on every mutant for the loader model.')
     chk.cov['conditional_theorems'] = CONDITIONAL
+    chk.cov['regression_families'] = ('integer-field family (c09_fields.int_field_mutants): every packed-integer field of every swept file set to 0, 1, 0x7FFFFFFF, '
+                                      '0xFFFFFFFE, 0xFFFFFFFF, 2^32(+1), 64-bit maxima, spliced and overwritten, under ASan+UBSan.  It is the regression of the repaired '
+                                      'finding F-C09-wrapped-run-count-long-loop (status fixed: a time-out or "Failed for Low Memory" on a wrapped count is a plain '
+                                      'VIOLATION; observed on this run: %d) and of the seeded change C09e_1' % chk.cov.get('known_finding_wrapped_count_cases', 0))
     chk.assumptions = ['exercised by oracle only (no model-vs-C comparison of these loader branches; the rejection theorems hold for every configuration k of '
                        'CodecModel.decode, the extracted model is run without configuration): disk found by uuid after a rename (--test-fake-uuid), REP/BLK '
                        'rewrites under sync -N / -R, the deprecated m / n records under a configuration',
